@@ -59,7 +59,7 @@ def strategy(tier: str) -> Any:
     step = st.tuples(st.sampled_from(OPS), r, r, r, r,
                      st.integers(0, 3 * 8 ** 5)).map(list)
     return st.fixed_dictionaries({
-        'backend': st.sampled_from(['dict', 'dict', 'maildir++',
+        'backend': st.sampled_from(['dict', 'maildir++', 'maildir++',
                                     'maildirfs']),
         'prog': st.lists(step, min_size=1, max_size=25),
     })
@@ -73,6 +73,13 @@ def _name(a: int, b: int, existing: list[str]) -> str:
         return existing[b % len(existing)]
     if existing and k == 1:
         return existing[b % len(existing)] + '/' + COMPS[(a + b) % len(COMPS)]
+    if existing and k == 2:
+        # a different name that shares a *string* prefix with an existing
+        # one ('a' -> 'ab'; 'ab' -> 'a'): not its inferior, not its superior
+        base = existing[b % len(existing)]
+        if (a // 6) % 2 and len(base.split('/')[-1]) > 1:
+            return base[:-1]
+        return base + ['b', ' x', '2', '-'][(a // 12) % 4]
     depth = 1 + (a // 6) % 3
     return '/'.join(COMPS[(b + 5 * i + a * i) % len(COMPS)]
                     for i in range(depth))
@@ -147,6 +154,14 @@ def run_case(case: dict[str, Any]) -> CaseOut:
                 parents = [x for x in existing
                            if any(y.startswith(x + '/') for y in existing)]
                 pool = parents if parents and a % 2 else existing
+                # ... and those that are a string prefix of another name
+                # without being its superior ('a' next to 'ab')
+                twins = [x for x in existing if any(
+                    y != x and y.startswith(x) and not y.startswith(x + '/')
+                    for y in existing)]
+                if twins and a % 3 == 0:
+                    pool = twins
+                    out.label('rename-source-is-string-prefix-of-sibling')
                 nm = pool[b % len(pool)]
             if backend == 'maildir++' and '.' in nm:
                 continue
